@@ -1169,9 +1169,11 @@ impl<T: Config> P2PSession<T> {
             }
             // add the input and all associated information
             Event::Input { input, player } => {
-                // input only comes from remote players, not spectators
-                assert!(player < self.num_players as PlayerHandle);
-                if !self.local_connect_status[player].disconnected {
+                // input only comes from remote players, not spectators: an input packet sent
+                // from a spectator's address is ignored, it must not bring the host down
+                if player < self.num_players as PlayerHandle
+                    && !self.local_connect_status[player].disconnected
+                {
                     // check if the input comes in the correct sequence
                     let current_remote_frame = self.local_connect_status[player].last_frame;
                     assert!(
